@@ -43,3 +43,12 @@ def replay_vcdsym(p,repo):
   if not r: print("symbols distinct: NOT reproduced"); return 0
   for f in r: print("FAILED     :",f)
   return 1
+
+def replay_tc(p,repo):
+  if repo not in sys.path: sys.path.insert(0,repo)
+  from zoo import tccheck
+  print("check      : RTLIR type checker verdict against simulation"); print("block      :",p['design']); print('\n'.join('  '+b for b in p['body']))
+  v,acc=tccheck.check_block(p['design'],p['body'],repo)
+  if not v: print("the contract holds: NOT reproduced"); return 0
+  for f in v: print("FAILED     :",f)
+  return 1
